@@ -246,6 +246,8 @@ class Context(object):
                     d = pickle.load(fh)
                     if rtype not in list(d.keys()):
                         d[rtype] = {}
+                    elif not isinstance(d[rtype], dict):
+                        d[rtype] = {}
             except:
                 os.remove(filename)
                 d = {rtype:{}}
@@ -282,11 +284,17 @@ class Context(object):
             except KeyError: return
             wou = self.warnOnUnrecognized
             self.warnOnUnrecognized = False
-            for key, value in list(data.items()):
-                n = self[value.get('macroName', 'Macro')]()
-                n.restore(value)
-                self.labels[key] = n
-            self.warnOnUnrecognized = wou
+            try:
+                for key, value in list(data.items()):
+                    # Skip damaged entries, the other labels are still good
+                    try:
+                        n = self[value.get('macroName', 'Macro')]()
+                        n.restore(value)
+                    except Exception:
+                        continue
+                    self.labels[key] = n
+            finally:
+                self.warnOnUnrecognized = wou
         except Exception as msg:
             log.warning('Could not load auxiliary information. (%s)' % msg)
 
